@@ -43,6 +43,9 @@ var limOps = []limOp{
 	{"format-star", `out := format("%*d", k, 7)`, nil, false},
 	{"format-x", `out := format("%x", s1)`, func(n1, n2 int, k int64) int { return 2 * n1 }, false},
 	{"format-X-bytes", `out := format("%X", bytes(s1))`, func(n1, n2 int, k int64) int { return 2 * n1 }, false},
+	{"format-x-space", `out := format("% x", s1)`, nil, false},
+	{"format-x-sharp", `out := format("%#x|%# X", s1, bytes(s2))`, nil, false},
+	{"format-x-prec", `out := format("%.1x|%6x|%-6x|", s1, s1, s2)`, nil, false},
 	{"format-q", `out := format("%q", s1)`, func(n1, n2 int, k int64) int { return n1 + 2 }, false},
 	{"format-v", `out := format("%v|%v", s1, 12)`, nil, false},
 	{"format-d-pad", `out := format("%08d", 42)`, func(n1, n2 int, k int64) int { return 8 }, false},
@@ -168,6 +171,12 @@ var allocProgs = []Prog{
 	{"builtin", `out := append([a], b, 3); n := len(out); c2 := copy(out)`, false},
 	{"iter", `out := 0; for v in [a, b, 3] { out += v }`, false},
 	{"immutable-error", `e := error(a); i := immutable([b]); out := i[0]`, false},
+	{"slices", `s := "hello"; t := s[1:3]; u := [a, b, 3][0:2]; w := bytes("xyz")[1:]; out := [t, u, w]`, false},
+	{"index-selectors", `m := {k: [a, b]}; x := m.k[1]; y := m["k"][0]; s := "héy"[1]; out := [x, y, s]`, false},
+	{"unary-logic", `x := -a; y := !a; z := ^b; w := a && b; v := a || b; out := [x, y, z, w, v, a == b, a != b]`, false},
+	{"calls", `f := func(x, ...r) { return x + len(r) }; g := func() { return f }; out := g()(a, b, 1) + len([a]) + int("3")`, false},
+	{"for-in-kinds", `n := 0; for c in "ab" { n += 1 }; for k, v in {x: a} { n += v }; for x in bytes("ab") { n += x }; out := n`, false},
+	{"string-build", `out := ""; for i := 0; i < 3; i++ { out += "x" + i }; o2 := out[0:2] + 'c'`, false},
 }
 
 func runWithAllocs(p Prog, n int64, a, b int64) (*tengo.Compiled, error, bool) {
